@@ -426,6 +426,10 @@ func (e *Exec) prepareCall(fr *frame, instr ssa.Instruction, c *ssa.CallCommon) 
 			e.tpanic(fr, instr, "nil interface method call ("+c.Method.Name()+")")
 		}
 		if o, ok := recv.v.(OpaqueV); ok {
+			if gv, ok := o.x.(gojaVal); ok {
+				res := e.gojaValueMethod(gv, c.Method.Name())
+				return &Closure{fn: nil, env: []Value{res}}, nil
+			}
 			if rt, ok := o.x.(rtypeV); ok {
 				var margs []Value
 				for _, a := range c.Args {
